@@ -285,6 +285,17 @@ func c12Exec(cs c12Case) (*fw.Violation, *harness.Client) {
 		case "data-before-headers":
 			feed(peer.Data(s1, []byte("x"), false, -1).Bytes())
 			feed(serialize(script))
+		case "not-reading-ping-flood", "not-reading-settings-flood":
+			// the server stops reading and keeps sending frames each of which is owed an acknowledgement: more of
+			// them than the client's outgoing queue holds; only the request timeouts can end the requests
+			h.ServerStall(0)
+			for i := 0; i < 140; i++ {
+				if cs.Name == "not-reading-ping-flood" {
+					feed(peer.Ping(false, [8]byte{byte(i)}).Bytes())
+				} else {
+					feed(peer.Settings(peer.Setting{ID: peer.SMaxConcurrentStreams, Val: uint32(100 + i)}).Bytes())
+				}
+			}
 		case "ping-flood":
 			for i := 0; i < 40; i++ {
 				feed(peer.Ping(false, [8]byte{byte(i)}).Bytes())
@@ -391,10 +402,12 @@ func c12Exec(cs c12Case) (*fw.Violation, *harness.Client) {
 			break
 		}
 	}
-	if cs.Family == "close-stalled" {
-		// the server went away without ever reading again: the blocked write fails and Close returns
-		h.Conns[0].Stalled = false
-		h.ServerClose(0)
+	for i, sc := range h.Conns {
+		if sc.Stalled {
+			// the server goes away without ever reading again: the blocked write fails and Close returns
+			sc.Stalled = false
+			h.ServerClose(i)
+		}
 	}
 	if live := h.S.LiveNames(); len(live) > 0 {
 		return mk("goroutine-left-behind", shape+" "+live[0], fmt.Sprintf("after Client.Close: %v still alive", live)), h
@@ -468,7 +481,7 @@ func runC12(c *fw.Ctx) {
 		do(c12Case{Family: "mutate", Mut: m})
 	}
 	c.Family("mutate")
-	for _, n := range []string{"rst-one", "rst-refused", "goaway-0", "goaway-1-then-finish", "goaway-error-mid-response", "oversized-frame", "garbage", "push-promise", "silence", "late-response-after-timeout", "window-update-overflow", "settings-invalid", "headers-on-unknown-stream", "data-before-headers", "ping-flood", "early-response-to-blocked-upload", "early-reset-of-blocked-upload"} {
+	for _, n := range []string{"rst-one", "rst-refused", "goaway-0", "goaway-1-then-finish", "goaway-error-mid-response", "oversized-frame", "garbage", "push-promise", "silence", "late-response-after-timeout", "window-update-overflow", "settings-invalid", "headers-on-unknown-stream", "data-before-headers", "ping-flood", "early-response-to-blocked-upload", "early-reset-of-blocked-upload", "not-reading-ping-flood", "not-reading-settings-flood"} {
 		do(c12Case{Family: "hostile", Name: n})
 	}
 	c.Family("hostile")
